@@ -642,6 +642,12 @@ class TaskScenario(ScenarioData):
                 self.isRunAway = True
                 return False
 
+        # The slot in which the task finished is not seen by the loop body above; if it
+        # is also the first slot that was booked (the work fits into one slot), it is the
+        # slot the backward task ends in.
+        if not forward and first_booked_slot is None and self.doneEffort > previous_effort:
+            first_booked_slot = self.currentSlotIdx
+
         # Set start/end dates based on scheduling direction
         if forward:
             # For forward scheduling: start is at the beginning, end is at current position
